@@ -93,6 +93,39 @@ pub fn drive(ctx: &mut Ctx) {
 	// the generic reference wrapper
 	like!(ctx, "Ref<Box<T>,T>", Ref<Box<u32>, u32> => u32, u32, |b| { Ref::from(leak_box(Box::new(b))) });
 	like!(ctx, "&Ref<&T,T>", &Ref<&String, String> => String, String, |b| { leak_box(Ref::from(leak_box(leak_box(b.clone()) as &String))) as &Ref<&String, String> });
+	// unsized targets behind the wrappers (Encode-only forms; no EncodeLike declaration involved, the bytes must
+	// simply be those of the owned value)
+	{
+		use crate::drivers::emit_like;
+		use crate::reg::Reg;
+		let mut g = ctx.rng_for("unsized", 9);
+		for _ in 0..(12 * ctx.scale) {
+			let s = <String as Reg>::gen(&mut g);
+			let bs: Box<str> = s.clone().into_boxed_str();
+			emit_like::<Box<str>, String>(ctx, "Box<str>", &bs, &s);
+			let rs: Rc<str> = Rc::from(s.as_str());
+			emit_like::<Rc<str>, String>(ctx, "Rc<str>", &rs, &s);
+			let ars: Arc<str> = Arc::from(s.as_str());
+			emit_like::<Arc<str>, String>(ctx, "Arc<str>", &ars, &s);
+			let cs: Cow<str> = Cow::Borrowed(s.as_str());
+			emit_like::<Cow<str>, String>(ctx, "Cow<str>", &cs, &s);
+			let t1 = (s.clone(),);
+			emit_like::<(String,), String>(ctx, "(String,)", &t1, &s);
+			let v = <Vec<u16> as Reg>::gen(&mut g);
+			let bv: Box<[u16]> = v.clone().into_boxed_slice();
+			emit_like::<Box<[u16]>, Vec<u16>>(ctx, "Box<[u16]>", &bv, &v);
+			let rv: Rc<[u16]> = Rc::from(&v[..]);
+			emit_like::<Rc<[u16]>, Vec<u16>>(ctx, "Rc<[u16]>", &rv, &v);
+			let cv: Cow<[u16]> = Cow::Borrowed(&v[..]);
+			emit_like::<Cow<[u16]>, Vec<u16>>(ctx, "Cow<[u16]>", &cv, &v);
+			let mut mv = v.clone();
+			let mr: &mut [u16] = &mut mv[..];
+			emit_like::<&mut [u16], Vec<u16>>(ctx, "&mut [u16]", &mr, &v);
+			let w = <Vec<String> as Reg>::gen(&mut g);
+			let aw: Arc<[String]> = Arc::from(w.clone());
+			emit_like::<Arc<[String]>, Vec<String>>(ctx, "Arc<[String]>", &aw, &w);
+		}
+	}
 	#[cfg(feature = "bit-vec")]
 	{
 		use bitvec::{order::Msb0, vec::BitVec};
